@@ -106,6 +106,7 @@ func runC10(rc *RunCtx) {
 	if script {
 		nAttempts = 3 + G.Draw(2)
 	}
+	var retryCfg *mCfg
 	for at := 1; at <= nAttempts; at++ {
 		viaSignal := G.Draw(3) == 0
 		listenFailAt := 1 << 30
@@ -137,6 +138,15 @@ func runC10(rc *RunCtx) {
 				next.Services = append(next.Services, mSvc{Listeners: []mLn{ln}, Keys: append([]*Key(nil), U[:1+G.Draw(len(U))]...)})
 			}
 		}
+		// The operator's reaction to a reload that failed for a reason outside the
+		// file (address busy, file unreadable): remove the obstacle and load the very
+		// same file again.
+		if retryCfg != nil && G.Draw(2) == 0 {
+			next = retryCfg
+			forcePoison = 100
+			rc.Probe("same_configuration_retried_after_failure")
+		}
+		retryCfg = nil
 		poison := ""
 		var cleanup func()
 		pd := G.Draw(12)
@@ -351,6 +361,10 @@ func runC10(rc *RunCtx) {
 			good = next
 		} else {
 			rc.Probe("failed_reload:" + poison)
+			switch poison {
+			case "listen-fails", "address-in-use", "file-unreadable":
+				retryCfg = next
+			}
 		}
 		// let stop/start goroutines settle
 		simrt.Sleep(time.Millisecond)
